@@ -42,7 +42,9 @@ Inductive c07case :=
    extension names on its services and messages *)
 | CTopic (t : topic) (ref_path : string) (v : verdict) (imports : list string) (exts : list string)
 (* an object (optionally an entity part) / a oneof alone in a file: message-level extension names *)
-| CShell (oneof entity : bool) (v : verdict) (imports : list string) (exts : list string).
+| CShell (oneof entity : bool) (v : verdict) (imports : list string) (exts : list string)
+(* a whole source file of several declarations: the verdict and the import sets of the three output files *)
+| CFile (ds : list decl) (ref_path : string) (v : verdict) (main service topic : list string).
 
 Definition decl_check (s : dstate) (v : verdict) (imports exts : list string) : bool :=
   verdict_eqb (verdict_d s) v &&
@@ -79,4 +81,12 @@ Definition c07_check (c : c07case) : bool :=
       end
   | CShell oneof entity v imports exts =>
       decl_check (if oneof then compile_oneof_shell else compile_object_shell entity) v imports exts
+  | CFile ds ref_path v main service topic =>
+      verdict_eqb (file_verdict ds) v &&
+      match v with
+      | VOk => set_eq (map (imp_path_with ref_path) (d_imps (file_state FMain ds))) main
+               && set_eq (map (imp_path_with ref_path) (d_imps (file_state FService ds))) service
+               && set_eq (map (imp_path_with ref_path) (d_imps (file_state FTopic ds))) topic
+      | _ => true
+      end
   end.
